@@ -65,6 +65,7 @@ inductive Stmt
   | store (target : Expr) (field : String) (rhs : Expr)   -- x.f = e
   | ifs (init : List Stmt) (cond : Expr) (thn els : List Stmt)
   | range (k v : String) (coll : Expr) (body : List Stmt)    -- for k, v := range coll   (`_` = not bound)
+  | forc (init : List Stmt) (cond : Expr) (post body : List Stmt)   -- for init; cond; post { body }
   | ret (es : List Expr)
   | brk
   | cont
@@ -153,6 +154,9 @@ abbrev Handler (σ : Type) := List Val → σ → Option (Val × σ)
 structure Prims (σ : Type) where
   fn : String → List Val → σ → Option (Val × σ)
   hfn : String → List Val → Handler σ → σ → Option (Val × σ) := fun _ _ _ _ => none
+  /-- how many iterations a three-clause `for` may make before the interpretation gives up (`none`); theorems about such
+      loops hold for EVERY fuel above the number of iterations the loop needs -/
+  fuel : Nat := 0
 
 /-- run `f` over the elements of a slice, left to right, stopping at `break`/`return` -/
 def loopM {σ : Type} (f : Nat → Val → Env → σ → Option (Env × σ × Ctl)) (i : Nat) : List Val → Env → σ → Option (Env × σ × Ctl)
@@ -164,6 +168,30 @@ def loopM {σ : Type} (f : Nat → Val → Env → σ → Option (Env × σ × C
     | some (env', w', .cont) => loopM f (i + 1) vs env' w'
     | some (env', w', .brk) => some (env', w', .norm)
     | some (env', w', .ret r) => some (env', w', .ret r)
+
+/-- a three-clause loop: `iter` evaluates condition, body and post statement once; `none` as control = go round again.
+    Out of fuel = stuck (`none`), never a made-up result. -/
+def whileM {σ : Type} (iter : Env → σ → Option (Env × σ × Option Ctl)) : Nat → Env → σ → Option (Env × σ × Ctl)
+  | 0, _, _ => none
+  | n + 1, env, w =>
+    match iter env w with
+    | none => none
+    | some (env', w', none) => whileM iter n env' w'
+    | some (env', w', some c) => some (env', w', c)
+
+/-- after one run of a three-clause loop's body: `continue`/normal end → the post statement, then round again -/
+def afterBody {σ : Type} (post : Env → σ → Option (Env × σ × Ctl)) : Option (Env × σ × Ctl) → Option (Env × σ × Option Ctl)
+  | some (e', w3, Ctl.norm) =>
+    (match post e' w3 with
+     | some (e'', w4, Ctl.norm) => some (e'', w4, none)
+     | _ => none)
+  | some (e', w3, Ctl.cont) =>
+    (match post e' w3 with
+     | some (e'', w4, Ctl.norm) => some (e'', w4, none)
+     | _ => none)
+  | some (e', w3, Ctl.brk) => some (e', w3, some Ctl.norm)
+  | some (e', w3, Ctl.ret v) => some (e', w3, some (Ctl.ret v))
+  | none => none
 
 /-- keep the elements on which `f` answers true (the body of fas.Filter), threading the world -/
 def filterM {σ : Type} (f : Val → σ → Option (Bool × σ)) : List Val → σ → Option (List Val × σ)
@@ -315,6 +343,18 @@ def evalS {σ : Type} (P : Prims σ) (env : Env) (w : σ) : Stmt → Option (Env
             (fun (e', w'', c) => (Env.leave e' e.length, w'', c)))
         0 vs env w1)
     | some (.nil, w1) => some (env, w1, .norm)
+    | _ => none
+  | .forc init cond post body =>
+    match evalB P env w init with
+    | some (env1, w1, .norm) =>
+      (whileM (fun e w' =>
+          match evalE P e w' cond with
+          | some (.bool true, w2) =>
+            afterBody (fun e' w3 => evalB P e' w3 post)
+              ((evalB P e w2 body).map (fun (e', w'', c) => (Env.leave e' e.length, w'', c)))
+          | some (.bool false, w2) => some (e, w2, some Ctl.norm)
+          | _ => none)
+        P.fuel env1 w1).map (fun (e, w', c) => (Env.leave e env.length, w', c))
     | _ => none
   | .ret es =>
     match evalEs P env w es with
